@@ -207,7 +207,7 @@ class Report:
     def finish(self):
         pid = self.pid
         known = load_known_findings()
-        all_obs = [ob for u in self.units for ob in u.obligations]
+        all_obs = [ob for u in self.units for ob in u.obligations if ob.get("kind") != "bounded-bookkeeping"]  # bounded stand-ins are never counted
         errors = [u for u in self.units if u.error]
         unsupported = [x for u in self.units for x in u.unsupported]
         canary_fail = [c for u in self.units for c in u.canaries if not c.get("refuted")]
